@@ -98,11 +98,13 @@ class World:
     def op(self, ex, dr=None, cmp=True, tag="", note=None):
         self.ops.append(Op(ex, dr, cmp, tag, note))
 
-    def add_key(self, s, key, private, alg_attr=None, extra=None, raw_alg=None):
+    def add_key(self, s, key, private, alg_attr=None, extra=None, raw_alg=None, jwk_override=None):
         """load one JWK into set `s` on the real side, declare the item on the model side"""
         idx = self.set_count.get(s, 0)
         self.set_count[s] = idx + 1
         jwk = key.jwk(private=private, alg=alg_attr, extra=extra)
+        if jwk_override:
+            jwk.update(jwk_override)        # another spelling of the same key material (the model is told what it denotes)
         kid = self.key_next_id
         self.key_next_id += 1
         okid = None
